@@ -389,3 +389,59 @@ def c02_two(p: int, kind1: int, kind2: int, payload: int) -> bool:
         if kd == 1 and any(tuple(e["path"]) == pts[k] for e in resp.get("errors", [])) and not user_error_kept(resp, pts[k], "user msg", 7):
             return verdict(False)
     return verdict(True)
+
+
+# ---- lists of lists whose levels differ in nullability: the null lands on exactly the nearest nullable position ----------------------------------------
+SDL_L = """
+type Row { n: Int! s: String }
+type Query { m1: [[Int!]]  m2: [[Int]!]  m3: [[Int!]!]  m4: [[Int]]  m5: [[Int!]!]!  r1: [[Row!]]  r2: [[Row]!]  keep: Int }
+"""
+MODEL_L = model_from_sdl(SDL_L)
+ENGS_L = [build(SDL_L, "c02l_%d" % _i, custom_default_resolver=_res_n, query_cache_decorator=None, **_kw)
+          for _i, _kw in enumerate(({}, {"coerce_list_concurrently": False, "coerce_parent_concurrently": False}))]
+FIELDS_L = ["m1", "m2", "m3", "m4", "m5", "r1", "r2"]
+ASTS_L = {f: gqlfront.parse("{ keep %s%s }" % (f, " { n s }" if f.startswith("r") else "")) for f in FIELDS_L}
+
+
+def _ref_resolve_l(ptype, fname, parent, args, path):
+    return world.read(parent, fname)
+
+
+@obligation(tier="quick", timeout=200, shards=[{"f": f, "eng": e} for f in FIELDS_L for e in range(2)],
+            samples=[{"where": 0, "bad": 0, "payload": 5}, {"where": 2, "bad": 1, "payload": 2 ** 31}, {"where": 4, "bad": 2, "payload": -1}],
+            symbolic=["payload: int (unbounded) — placed at the chosen leaf (out of range = unserialisable)"],
+            selectors=["where: none / an item of the first inner list / of the second / a whole inner list / the outer list", "bad: null / a non-list or non-object / the int payload", "shard: declared list-of-lists type, concurrent or sequential coercion"],
+            bounds="7 list-of-lists layouts ([[T!]], [[T]!], [[T!]!], [[T]], [[T!]!]!, with scalar and object items) x 5 positions x 3 kinds x 2 engines",
+            note="a failure at any level of a list of lists nulls exactly the nearest nullable position (item, inner list, outer list, field or data) — data == reference propagation, errors explained")
+def c02_nested_lists(where: int, bad: int, payload: int) -> bool:
+    """
+    post: _
+    """
+    sh = shard()
+    f = sh["f"]
+    where = pick(where, 5); bad = pick(bad, 3)
+    isrow = f.startswith("r")
+    leaf = (lambda v: {"n": v, "s": "x"}) if isrow else (lambda v: v)
+    badv = None if bad == 0 else ("garbage" if bad == 1 else payload)
+    inner_bad = None if bad == 0 else ("not-a-list" if bad == 1 else payload)
+    m = [[leaf(1), leaf(2)], [leaf(3)]]
+    if where == 1:
+        m[0][1] = leaf(badv) if (isrow and bad == 2) else (badv if not isrow else (None if bad == 0 else "not-an-object"))
+    elif where == 2:
+        m[1][0] = leaf(badv) if (isrow and bad == 2) else (badv if not isrow else (None if bad == 0 else "not-an-object"))
+    elif where == 3:
+        m[0] = inner_bad
+    elif where == 4:
+        m = inner_bad
+    data = {"keep": 7, f: m}
+    text = "{ keep %s%s }" % (f, " { n s }" if isrow else "")
+    ok, resp = safe(lambda: env.run(ENGS_L[sh["eng"]].execute(text, initial_value=data)))
+    observe(text, data, resp)
+    if not ok:
+        return verdict(False)
+    ref = Ref(MODEL_L, ASTS_L[f], _ref_resolve_l, None)
+    exp = ref.execute(None, {}, data)
+    observe(("expected", exp, ref.errors, ref.nulled))
+    if to_pairs(resp.get("data")) != exp:
+        return verdict(False)
+    return verdict(errors_ok(resp, ref) and locations_ok(resp, ref))
